@@ -192,8 +192,17 @@ class Interp:
         if not self.auto_inline:
             return False
         root = self._root_func()
-        if root is None or target.module is not root.module:
+        if root is None:
             return False
+        if target.module is not root.module:
+            # helpers the command modules share (extracted from evo_ape /
+            # evo_rpe / evo_traj into the common glue module) are looked
+            # through like helpers of the same module
+            glue = ("evo.common_ape_rpe",)
+            if not (root.module.name.startswith("evo.main_") or
+                    root.module.name in glue) or \
+                    target.module.name not in glue or target.cls is not None:
+                return False
         if target.is_property or target.name.startswith("__"):
             return False
         if target.module.name in ("evo.core.transformations",):
